@@ -18,7 +18,13 @@ import (
 	"time"
 )
 
-const Root = "/verif"
+// Root is the verification directory (VERIF_ROOT overrides, for snapshot runs).
+var Root = func() string {
+	if r := os.Getenv("VERIF_ROOT"); r != "" {
+		return r
+	}
+	return "/verif"
+}()
 
 // WorkMain is the entry of a child process.
 func WorkMain(args []string) int {
